@@ -50,7 +50,7 @@ def gen_cases(tier, seed):
         cases.append({"kind": "roundtrip", "npts": [rng.randint(6, 8) for _ in range(4)], "P1": rng.choice(Ps), "P2": rng.choice(Ps),
                       "layout": ["flux_surface", "v_parallel", "poloidal"][k % 3], "seed": rng.randrange(1 << 30), "cost": 100})
     for k in range(12 if tier == "quick" else 900):
-        cases.append({"kind": "constants", "mode": ["defaults", "perturbed", "perturbed-rp", "shuffled", "symbolic", "symbolic-long"][k % 6], "seed": rng.randrange(1 << 30), "cost": 2})
+        cases.append({"kind": "constants", "mode": ["defaults", "perturbed", "perturbed-rp", "shuffled", "symbolic", "symbolic-long", "partial", "partial"][k % 8], "seed": rng.randrange(1 << 30), "cost": 2})
     for k in range(6 if tier == "quick" else 150):
         times = sorted(set(rng.choice([0, 2, 8, 10, 14, 100, 250, 1000, 4096, 99998, 100000]) for _ in range(rng.randint(2, 5))))
         if k % 2 == 0:
@@ -279,7 +279,20 @@ def _constants(case, tmp):
     mode = case["mode"]
     ev = {"constants_attributes_compared": 0}
     c = cm.Constants()
-    if mode != "defaults":
+    if mode == "partial":
+        # only SOME constants moved away from their defaults, the others left alone (radial limits first: their setters move rp)
+        setters = [("rMin", lambda: rng.uniform(0.1, 1.0)), ("rMax", lambda: rng.uniform(9, 20)), ("vMax", lambda: rng.uniform(3, 9)), ("vMin", lambda: -rng.uniform(2, 9)),
+                   ("R0", lambda: rng.uniform(100, 300)), ("zMin", lambda: rng.uniform(-50, 50)), ("zMax", lambda: rng.uniform(600, 2000)), ("B0", lambda: rng.choice([0.5, 2.0])),
+                   ("eps", lambda: rng.choice([1e-6, 0.003])), ("m", lambda: rng.randint(1, 20)), ("n", lambda: rng.randint(0, 3)), ("iotaVal", lambda: 0.8),
+                   ("dt", lambda: rng.choice([1, 5])), ("npts", lambda: [rng.choice([16, 32, 48]) for _ in range(4)]), ("kN0", lambda: rng.uniform(0.01, 0.1)),
+                   ("kTi", lambda: rng.uniform(0.05, 0.09)), ("kTe", lambda: rng.uniform(0.05, 0.09)), ("deltaRTe", lambda: rng.uniform(0.8, 2.0)),
+                   ("deltaRTi", lambda: rng.uniform(0.8, 2.0)), ("deltaRN0", lambda: rng.uniform(1.5, 4.0)), ("CTi", lambda: rng.uniform(0.8, 1.3)), ("CTe", lambda: rng.uniform(0.8, 1.3)),
+                   ("rp", lambda: c.rMin + rng.uniform(0.2, 0.45) * (c.rMax - c.rMin))]
+        for name, fn in setters:
+            if hasattr(c, name) and rng.random() < (0.6 if name == "rp" else 0.35):
+                setattr(c, name, fn())
+        c.getCN0()
+    elif mode != "defaults":
         c.rMin = rng.uniform(0.1, 1.0)
         c.rMax = rng.uniform(5, 20)
         c.vMax = rng.uniform(3, 9)
@@ -364,7 +377,7 @@ def _constants(case, tmp):
         g = got.get(k)
         ok = (g == v) or (isinstance(v, float) and isinstance(g, (int, float)) and abs(g - v) <= 1e-15 * abs(v))
         if not ok:
-            key = KEY_RP if k in ("rp", "CN0") and mode in ("perturbed-rp", "shuffled") and abs(want["rp"] - 0.5 * (want["rMin"] + want["rMax"])) > 1e-9 else "C18:constants/%s" % k
+            key = KEY_RP if k in ("rp", "CN0") and mode in ("perturbed-rp", "shuffled", "partial") and abs(want["rp"] - 0.5 * (want["rMin"] + want["rMax"])) > 1e-9 else "C18:constants/%s" % k
             return result(VIOL, cls=["constants/%s" % mode], events=ev, key=key, what="constant %s saved as %r is read back as %r (mode %s)" % (k, v, g, mode), witness={"case": case})
     return result(HELD, cls=["constants/%s" % mode], events=ev, n_eval=ev["constants_attributes_compared"])
 
